@@ -47,7 +47,7 @@ type solveOut struct {
 	secs   float64
 }
 
-var procSem = make(chan struct{}, 28)
+var procSem = make(chan struct{}, 16)
 
 func runSolver(ctx context.Context, sc SolverCfg, script string, ms int, quant bool, wantModel bool) solveOut {
 	procSem <- struct{}{}
@@ -294,7 +294,8 @@ func discharge(o *Obligation, p *prepared, opt solveOpts) {
 	if len(p.cases) == 0 {
 		r, tried = raceSolvers(p.ground, first, opt.timeoutMs)
 	} else {
-		r = solveOut{res: "unknown"}
+		// cheap attempt on the unsplit query; the case split handles what it cannot
+		r, tried = raceSolvers(p.ground, 1000, 1000)
 	}
 	modelScript := p.ground
 	if r.res != "unsat" && r.res != "sat" && len(p.cases) > 0 {
